@@ -24,8 +24,8 @@ definition accounts for makes the generator FAIL (non-zero exit, message naming 
 statement).  Nothing is skipped silently: the regimes that are deliberately not translated are listed
 in SKIPPED with the reason.
 
-Standard library only.  `main()` regenerates coq/Gen/Exprs.v, coq/Gen/Exprs2.v and coq/Gen/Exprs3.v (each written only
-when its content changes).
+Standard library only.  `main()` regenerates coq/Gen/Exprs.v, coq/Gen/Exprs2.v, coq/Gen/Exprs3.v and coq/Gen/Exprs4.v
+(each written only when its content changes).
 
 PART 2 (second half of this file, SPECS2 -> coq/Gen/Exprs2.v, tied by Proofs/ExprsTie2.v) extends the same mechanism
 to src/sop/cube.rs, src/sop/ecube.rs, src/bdd.rs and src/canonization.rs with a translator that is typed by the
@@ -36,6 +36,11 @@ src/operations.rs and src/decomposition.rs with the machinery of part 2 and tran
 hand-written model: the whole-word regimes (strides, loop guards, indices read and written, which word goes where),
 the regime selectors, fill_symmetric word by word, table_size / hex_str_size / the text widths, the arithmetic of
 fill_hex, the control flow of next_inplace; see the comment that opens part 3.
+
+PART 4 (SPECS4 -> coq/Gen/Exprs4.v, tied by Proofs/ExprsTie4.v) translates the bodies of src/sop/sop.rs, src/sop/esop.rs,
+src/sop/soes.rs (and the functions of cube.rs / ecube.rs that part 2 leaves) as whole functions: statement blocks are
+compiled to expressions (fold_left for loops, record rebuilding for field updates, lists for vectors and iterators); see
+the comment that opens part 4.
 """
 import os
 import re
@@ -415,12 +420,31 @@ class ExprParser:
             if op == "&" and self.peek() == "mut":
                 self.next()
             return ("un", op, self.unary())
+        if op == "move" and self.i + 1 < len(self.toks) and self.toks[self.i + 1].text == "|":
+            self.next()     # `move |x| ..`: captures by value, the same function
+            op = "|"
         if op == "|":
             self.next()
             params = []
             types = []
             while self.peek() != "|":
                 t = self.next()
+                if t.text == "(":
+                    # tuple pattern (part 4): the parameter is named "(a,b)"
+                    names = []
+                    while self.peek() != ")":
+                        n = self.next()
+                        if n.kind != "id":
+                            self.err("name expected in a tuple pattern")
+                        names.append(n.text)
+                        if self.peek() == ",":
+                            self.next()
+                    self.next()
+                    params.append("(" + ",".join(names) + ")")
+                    types.append("")
+                    if self.peek() == ",":
+                        self.next()
+                    continue
                 if t.kind != "id":
                     self.err("closure parameter expected")
                 params.append(t.text)
@@ -471,6 +495,17 @@ class ExprParser:
                     continue
                 if name.kind != "id":
                     self.err("method or field name expected after `.`")
+                if self.peek() == "::":
+                    # turbofish `.collect::<Vec<_>>()`: the type arguments do not reach the translation
+                    self.next()
+                    if self.peek() != "<":
+                        self.err("`<` expected after `::` in a method call")
+                    depth = 0
+                    while True:
+                        t = self.next().text
+                        depth += {"<": 1, "<<": 2, ">": -1, ">>": -2}.get(t, 0)
+                        if depth <= 0:
+                            break
                 if self.peek() != "(":
                     e = ("field", e, name.text)
                     continue
@@ -499,9 +534,28 @@ class ExprParser:
         if t.text == "(":
             e = self.expr(0)
             if self.peek() == ",":
-                self.err("tuples are outside the translated fragment")
+                # tuple (part 4): ('tupleexpr', elements)
+                elems = [e]
+                while self.peek() == ",":
+                    self.next()
+                    if self.peek() == ")":
+                        break
+                    elems.append(self.expr(0))
+                self.expect(")")
+                return ("tupleexpr", tuple(elems))
             self.expect(")")
             return e
+        if t.text == "[":
+            # array literal (part 4), read as a vector literal
+            elems = []
+            while self.peek() != "]":
+                elems.append(self.expr(0))
+                if self.peek() == ",":
+                    self.next()
+                elif self.peek() != "]":
+                    self.err("`,` or `]` expected in an array literal")
+            self.expect("]")
+            return ("vecmac", tuple(elems))
         if t.text == "if":
             c = self.expr(0)
             a = self.block_expr()
@@ -521,6 +575,22 @@ class ExprParser:
             while self.peek() == "::":
                 self.next()
                 name += "::" + self.next().text
+            if self.peek() == "!" and self.i + 1 < len(self.toks) and self.toks[self.i + 1].text in OPEN:
+                # macro call in expression position (part 4): ('vecmac', elements) for vec![..], ('macro', name) otherwise
+                self.next()
+                e = skip_group(self.toks, self.i, self.where)
+                inner = self.toks[self.i + 1:e]
+                self.i = e + 1
+                if name == "vec":
+                    elems, i = [], 0
+                    while i < len(inner):
+                        j = find_at_depth0(inner, i, {",", ";"}, self.where)
+                        if j < len(inner) and inner[j].text == ";":
+                            self.err("`vec![e; n]` is outside the translated fragment")
+                        elems.append(parse_expr(inner[i:j], self.where))
+                        i = j + 1
+                    return ("vecmac", tuple(elems))
+                return ("macro", name, norm(inner))
             if name in STRUCT_NAMES and self.peek() == "{":
                 self.next()
                 fields = []
@@ -1312,11 +1382,19 @@ def base_ty(ty):
     return ty[1:] if ty.startswith("&") else ty
 
 
+# part 4 adds vector / iterator / Lut / string types while it runs
+RUST_TYPE_EXTRA = [None]
+
+
 def rust_type(text, self_ty=None, output_ty=None):
     """Rust type text -> type of the translator"""
     t = "".join(text.split())
     if t in ("Self::Output", "Self::Output"):
         return output_ty or ("opaque:" + t)
+    if RUST_TYPE_EXTRA[0] is not None:
+        extra = RUST_TYPE_EXTRA[0](t, self_ty, output_ty)
+        if extra:
+            return extra
     ref = False
     if t.startswith("&mut"):
         ref, t = True, t[4:]
@@ -1454,8 +1532,10 @@ class Source2:
             if key in self.fns:
                 fail("%s: two functions `%s` in `%s`" % (self.rel, name, header or "the file"))
             ps = []
+            mut_self = False
             for p in split_top(params):
                 q = "".join(p.split())
+                mut_self = mut_self or q == "&mutself"
                 if q in ("self", "mutself"):
                     ps.append(("self", self_ty))
                 elif q in ("&self", "&mutself"):
@@ -1465,7 +1545,7 @@ class Source2:
                     pn = pn.replace("mut ", "").strip()
                     ps.append((pn, rust_type(pt, self_ty, output_ty)))
             self.fns[key] = {"params": ps, "ret": rust_type(ret, self_ty, output_ty) if ret else "unit",
-                             "body": fbody, "header": header, "name": name}
+                             "body": fbody, "header": header, "name": name, "mut_self": mut_self}
             self.order.append(key)
 
 
@@ -1948,7 +2028,7 @@ def struct_fields(st, where):
     src = SOURCES2[voc["file"]]
     if st not in src.structs:
         fail("%s: struct %s not found in %s" % (where, st, voc["file"]))
-    fields = [(f, rust_type(t)) for f, t in src.structs[st]]
+    fields = [(f, voc.get("field_ty", {}).get(f) or rust_type(t)) for f, t in src.structs[st]]
     if [f for f, _ in fields] != [f for f, _ in voc["proj"]]:
         fail("%s: the fields of struct %s are %s (the Gallina record has %s, in this order: the derived order and "
              "equality depend on it)" % (where, st, [f for f, _ in fields], [f for f, _ in voc["proj"]]))
@@ -3300,9 +3380,1216 @@ def generate3():
     return "\n".join(L), defs
 
 
+# ==============================================================================================
+# PART 4: the two-level forms themselves: src/sop/sop.rs, src/sop/esop.rs, src/sop/soes.rs and what part 2 leaves of
+#         src/sop/cube.rs, src/sop/ecube.rs   ->  coq/Gen/Exprs4.v   (tied to the model by Proofs/ExprsTie4.v)
+#
+# Every function is translated as a WHOLE BODY by a small state-passing compilation of the statement block (parts 1-3
+# are left as they are, their output is byte-identical):
+#   let [mut] x = e;            -> let x := e in ..
+#   x = e;  x op= e;            -> let x := .. in ..             (a re-binding of the same name)
+#   x.f = e;  x.f.push(e);      -> let x := mkX (..) e' (..) in ..   (the record rebuilt with the other fields projected)
+#   v.push(e)  v.extend(&w)  v.retain(f)  v.sort()  v.dedup()
+#                               -> v ++ [e]   v ++ w   filter f v   cube_sort v   cube_dedup v
+#   x.m(..);  (m takes &mut self and is translated: Sop::simplify)  -> let x := gx_m x .. in ..
+#   for p in L { body }         -> let s := fold_left (fun s p => body; s) L s in ..
+#                                  where s = the variables of the enclosing scope that the body modifies (a tuple if there
+#                                  are several); `continue` gives the state back
+#   if c { body }               -> let s := if c then (body; s) else s in ..       if c { return v; } .. -> if c then v else ..
+#   for p in L { if c { return false; } } return true;    -> forallb (fun p => negb c) L      (and the dual: existsb)
+#   match o { Some(x) => a, None => b }  -> match o with Some x => a | None => b end;   v.first() -> hd_error v
+#   an arm `panic!()` becomes the extra parameter `unreachable` of the definition: the tie is proved for EVERY value of
+#   it, which is the statement that the arm is dead
+#   iterators are lists:  v.iter() / .collect() -> v    .map(f) -> map f    .filter(f) -> filter f    .all(f) -> forallb f
+#   .any(f) -> existsb f    .len() -> length    .is_empty() -> vec_is_empty    lo..hi (usize) -> range4 lo hi
+#   closures -> fun;  vec![a, b] -> [a; b];  Vec::new() -> []
+# Targets:  value    the value the body returns (for a `&mut self` method: the receiver at the end); assert! lines skipped
+#           asserts  the conjunction, in source order, of the arguments of the assert! / assert_eq! lines of the body,
+#                    a loop around them being forallb (the model checks them with `always`)
+#           written  (Display::fmt) the text written to the formatter, as a byte list: string literals are read from
+#                    the source; `write!(f, "lit")?; return Ok(())` and the final `write!(f, "{}", s)` are the only shapes
+# Types: the structs Sop / Esop / Soes are the records of Model/TwoLevel.v (fields and order read from the `struct`
+# items); `num_vars` (field or usize parameter) is a nat, as in those records; Vec<T> / &[T] / impl Iterator<Item = T>
+# are lists; String is a byte list.  Vocabulary that is NOT read from the source (listed in the trailer of Exprs4.v):
+# the Lut methods used by the conversions, Vec::sort / Vec::dedup on cubes, to_string() of a cube, join.
+# Coverage: every statement of a translated function is consumed by one of its definitions or the generator fails;
+# every fn of sop.rs / esop.rs / soes.rs is translated or listed in SKIPPED_FNS4; stale list entries fail.
+
+SOP = "src/sop/sop.rs"
+ESOP = "src/sop/esop.rs"
+SOES = "src/sop/soes.rs"
+FILES4 = (CUBE, ECUBE, SOP, ESOP, SOES)
+FILES4_FULL = (SOP, ESOP, SOES)
+
+STRUCT_VOCAB4 = {
+    "Sop": {"file": SOP, "ty": "sop", "ctor": "mkSop", "proj": [("num_vars", "snv"), ("cubes", "scubes")],
+            "field_ty": {"num_vars": "nat"}},
+    "Esop": {"file": ESOP, "ty": "esop", "ctor": "mkEsop", "proj": [("num_vars", "env"), ("cubes", "ecubes")],
+             "field_ty": {"num_vars": "nat"}},
+    "Soes": {"file": SOES, "ty": "soes", "ctor": "mkSoes", "proj": [("num_vars", "onv"), ("cubes", "ocubes")],
+             "field_ty": {"num_vars": "nat"}},
+}
+COQ_TYPE4 = {"sop": "sop", "esop": "esop", "soes": "soes", "lut": "lut", "str": "list N"}
+# usize parameters with these names are nat (the variable count of the model records)
+NAT_PARAMS4 = {"num_vars"}
+ELEM_NAMES4 = {"Cube": "cube", "Ecube": "ecube", "String": "str"}
+ASSERT_MACROS = ("assert", "debug_assert", "assert_eq", "debug_assert_eq")
+VEC_MUT_METHODS = ("push", "extend", "retain", "sort", "dedup")
+LUT_MUT_METHODS = ("set_bit", "set_value")
+DISPLAY4 = {"cube": "cube_display", "ecube": "ecube_display"}
+SORT4 = {"cube": ("cube_sort", "cube_dedup")}
+
+
+def rust_type4(t, self_ty, output_ty):
+    """types of part 4 (t without spaces); None = not one of them"""
+    ref = ""
+    u = t
+    if u.startswith("&mut"):
+        ref, u = "&", u[4:]
+    elif u.startswith("&"):
+        ref, u = "&", u[1:]
+    if u == "Lut":
+        return ref + "lut"
+    if u == "String" or u == "str":
+        return "str"
+    m = re.fullmatch(r"Vec<(\w+)>|\[(\w+)\]|implIterator<Item=(\w+)>(?:\+'_)?", u)
+    if m:
+        el = m.group(1) or m.group(2) or m.group(3)
+        if el in ELEM_NAMES4:
+            return ref + "vec:" + ELEM_NAMES4[el]
+        if m.group(3) and el in INT_WIDTH:
+            return "vec:" + el
+    return None
+
+
+def strip_refs(ty):
+    return ty.replace("&", "")
+
+
+def is_vec(ty):
+    return strip_refs(ty).startswith("vec:")
+
+
+def elem_of(ty):
+    """element type of a list type, with its own reference mark"""
+    t = ty[1:] if ty.startswith("&") else ty
+    return t[4:]
+
+
+def iter_elem(ty):
+    """type of the loop variable of `for x in <ty>`: borrowed vectors of structs yield references, integers are copied"""
+    el = elem_of(ty)
+    if el in ("&usize", "&u32", "&u64", "&bool"):
+        return el[1:]
+    if ty.startswith("&") and not el.startswith("&") and el in STRUCT_OF_TY:
+        return "&" + el
+    return el
+
+
+def compat4(a, b):
+    """may a value of type a be used where b is expected (references and unknown element types do not count)"""
+    a, b = strip_refs(a), strip_refs(b)
+    if a == b:
+        return True
+    if a.startswith("vec:") and b.startswith("vec:") and "?" in (a[4:], b[4:]):
+        return True
+    if a.startswith("tuple:") and b.startswith("tuple:"):
+        xs, ys = a[6:].split("|"), b[6:].split("|")
+        return len(xs) == len(ys) and all(compat4(x, y) or (is_int(x) and is_int(y) and Translator2.unify(x, y)) for x, y in zip(xs, ys))
+    return False
+
+
+def more_specific(a, b):
+    if a == "lit" or "?" in a:
+        return b
+    return a
+
+
+def coq_type4(ty, where):
+    t = strip_refs(ty)
+    if t in COQ_TYPE4:
+        return COQ_TYPE4[t]
+    if t.startswith("vec:") and t != "vec:?":
+        return "list " + Translator.paren(coq_type4(t[4:], where))
+    if t.startswith("tuple:"):
+        return " * ".join(Translator.paren(coq_type4(x, where)) for x in t[6:].split("|"))
+    return coq_type2(t, where)
+
+
+def rust_string_bytes(tok, where):
+    """bytes of a Rust string literal token"""
+    body = tok[1:-1]
+    out, i = [], 0
+    esc = {"n": 10, "t": 9, "r": 13, "\\": 92, "\"": 34, "'": 39, "0": 0}
+    while i < len(body):
+        ch = body[i]
+        if ch == "\\":
+            if i + 1 >= len(body) or body[i + 1] not in esc:
+                fail("%s: escape sequence in the string literal %s" % (where, tok))
+            out.append(esc[body[i + 1]])
+            i += 2
+        else:
+            out.extend(ch.encode("utf-8"))
+            i += 1
+    return out
+
+
+def bytes_text(bs):
+    return "[" + "; ".join(str(b) for b in bs) + "]"
+
+
+# ----------------------------------------------------------------------------------------------
+# part 4: statement blocks -> one expression.  New AST nodes:
+#   ('lettuple', names, rhs, body)  ('tuplev', names)  ('fold', state names, loop variable, iterated, body)
+#   ('setfield', x, field, e)  ('mutcall', place, method, args)  ('quant', 'forallb' | 'existsb', variable, iterated, e)
+#   ('match', scrutinee, ((pattern, e)..))  pattern = ('Some', x) | ('None',) | ('_',)
+#   ('conj', (e..))  ('bytes', [byte..])  ('vecmac', (e..))  ('macro', name, argument text)
+
+class Conv4:
+    def __init__(self, fn, mut_methods):
+        self.fn = fn
+        self.mut_methods = mut_methods
+
+    def W(self, s):
+        return "%s: `%s`" % (self.fn.where, stmt_text(self.fn, s))
+
+    def expr_of(self, s):
+        return stmt_expr(self.fn, s)
+
+    # -- which variables of the enclosing scope a block modifies (in order of first modification)
+    def root(self, place, w):
+        while True:
+            if place[0] == "path" and "::" not in place[1]:
+                return place[1]
+            if place[0] == "field":
+                place = place[1]
+            elif place[0] == "un" and place[1] == "*":
+                place = place[2]
+            else:
+                fail("%s: the modified place is neither a variable nor a field of a variable" % w)
+
+    def mutation(self, s):
+        """(place, new value) of a statement that modifies a place, or None"""
+        w = self.W(s)
+        if s.kind == "assign":
+            return parse_expr(s.lhs, w), expand_assign(s, w)
+        if s.kind == "expr":
+            e = self.expr_of(s)
+            if e[0] == "mcall" and e[2] in self.mut_methods:
+                return e[1], ("mutcall", e[1], e[2], e[3])
+        return None
+
+    def mutated(self, block):
+        out, declared = [], set()
+
+        def walk(b, local):
+            local = set(local)
+            for s in b:
+                if s.kind == "let":
+                    if s.name is not None:
+                        local.add(s.name)
+                    continue
+                m = self.mutation(s)
+                if m is not None:
+                    r = self.root(m[0], self.W(s))
+                    if r not in local and r not in out:
+                        out.append(r)
+                elif s.kind == "for":
+                    walk(s.body, local | self.loop_vars(s))
+                elif s.kind == "if":
+                    for _, body in s.branches:
+                        walk(body, local)
+        walk(block, declared)
+        return out
+
+    def loop_vars(self, s):
+        j = find_at_depth0(s.head, 0, {"in"}, self.W(s))
+        return {t.text for t in s.head[:j] if t.kind == "id"}
+
+    @staticmethod
+    def state_expr(names):
+        return ("path", names[0]) if len(names) == 1 else ("tuplev", tuple(names))
+
+    @staticmethod
+    def bind(names, value, rest):
+        if len(names) == 1:
+            # `let x := v in x` is v
+            return value if rest == ("path", names[0]) else ("let", names[0], "", value, rest)
+        return value if rest == ("tuplev", tuple(names)) else ("lettuple", tuple(names), value, rest)
+
+    def assign_place(self, place, val, rest, w):
+        while place[0] == "un" and place[1] == "*":
+            place = place[2]
+        if place[0] == "path" and "::" not in place[1]:
+            return self.bind([place[1]], val, rest)
+        if place[0] == "field" and place[1][0] == "path":
+            return self.bind([place[1][1]], ("setfield", place[1], place[2], val), rest)
+        fail("%s: assignment to a place that is neither a variable nor a field of a variable" % w)
+
+    def has_asserts(self, block):
+        for s in block:
+            if s.kind == "macro" and s.name in ASSERT_MACROS:
+                return True
+            if s.kind == "for" and self.has_asserts(s.body):
+                return True
+            if s.kind == "if" and any(self.has_asserts(b) for _, b in s.branches):
+                return True
+        return False
+
+    def only_asserts(self, block):
+        return all((s.kind == "macro" and s.name in ASSERT_MACROS) or
+                   (s.kind == "for" and s.toks[0].text == "for" and self.only_asserts(s.body)) for s in block)
+
+    def diverges(self, block):
+        if not block:
+            return False
+        s = block[-1]
+        return s.kind == "return" or (s.kind == "expr" and norm(s.expr) == "continue")
+
+    def is_bool_return(self, s):
+        """the boolean literal returned by `return b;` / a tail `b`, or None"""
+        if s.kind == "return" and s.rhs and norm(s.rhs) in ("true", "false"):
+            return norm(s.rhs)
+        if s.kind == "expr" and s.tail and norm(s.expr) in ("true", "false"):
+            return norm(s.expr)
+        return None
+
+    def for_parts(self, s):
+        w = self.W(s)
+        if s.toks[0].text != "for":
+            fail("%s: `%s` loops are outside the translated fragment" % (w, s.toks[0].text))
+        j = find_at_depth0(s.head, 0, {"in"}, w)
+        if j >= len(s.head):
+            fail("%s: `for` without `in`" % w)
+        if j != 1 or s.head[0].kind != "id":
+            fail("%s: only `for <variable> in ..` is in the translated fragment" % w)
+        return s.head[0].text, parse_expr(s.head[j + 1:], w)
+
+    # -- value
+    def value(self, stmts, cont, loop_state=None):
+        """the value of the statements; cont = the expression they fall through to (None: they must end with a value)"""
+        if not stmts:
+            if cont is None:
+                fail("%s: block without a value" % self.fn.where)
+            return cont
+        s, rest = stmts[0], stmts[1:]
+        w = self.W(s)
+        if s.kind == "let":
+            if s.name is None or s.rhs is None:
+                fail("%s: `let` outside the translated fragment" % w)
+            s.covered = True
+            return ("let", s.name, s.ann, parse_expr(s.rhs, w), self.value(rest, cont, loop_state))
+        if s.kind == "macro":
+            if s.name in ASSERT_MACROS:
+                s.skipped_assert = True
+                return self.value(rest, cont, loop_state)
+            if s.name in ("panic", "unreachable") and not rest:
+                s.covered = True
+                return ("macro", s.name, norm(s.args))
+            fail("%s: macro outside the translated fragment" % w)
+        if s.kind == "return":
+            if loop_state is not None:
+                fail("%s: `return` inside a loop (only the search loops `for .. { if c { return b; } } return !b` are read)" % w)
+            if rest or not s.rhs:
+                fail("%s: `return` that does not end the block" % w)
+            s.covered = True
+            return parse_expr(s.rhs, w)
+        m = self.mutation(s)
+        if m is not None:
+            s.covered = True
+            return self.assign_place(m[0], m[1], self.value(rest, cont, loop_state), w)
+        if s.kind == "expr":
+            if norm(s.expr) == "continue":
+                if loop_state is None or rest:
+                    fail("%s: `continue` outside a loop or not at the end of a block" % w)
+                s.covered = True
+                return loop_state
+            if not rest and cont is None:
+                s.covered = True
+                return self.expr_of(s)
+            fail("%s: expression statement outside the translated fragment (no translated effect)" % w)
+        if s.kind == "for":
+            if self.only_asserts(s.body):
+                s.skipped_assert = True
+                return self.value(rest, cont, loop_state)
+            var, it = self.for_parts(s)
+            # search loop
+            if loop_state is None and cont is None and len(rest) == 1 and len(s.body) == 1 and s.body[0].kind == "if" \
+                    and not getattr(s.body[0], "is_match", False) and len(s.body[0].branches) == 1 \
+                    and len(s.body[0].branches[0][1]) == 1:
+                inner = self.is_bool_return(s.body[0].branches[0][1][0])
+                outer = self.is_bool_return(rest[0])
+                if inner and outer and inner != outer and s.body[0].branches[0][1][0].kind == "return":
+                    c = parse_expr(s.body[0].branches[0][0], w)
+                    for x in (s, s.body[0], s.body[0].branches[0][1][0], rest[0]):
+                        x.covered = True
+                    if inner == "false":
+                        return ("quant", "forallb", var, it, ("un", "!", c))
+                    return ("quant", "existsb", var, it, c)
+            if self.has_asserts(s.body):
+                fail("%s: loop with both assertions and effects" % w)
+            state = self.mutated([s])
+            if not state:
+                fail("%s: loop without an effect on a variable of the enclosing scope" % w)
+            st = self.state_expr(state)
+            s.covered = True
+            body = self.value(s.body, st, st)
+            return self.bind(state, ("fold", tuple(state), var, it, body), self.value(rest, cont, loop_state))
+        if s.kind == "if":
+            s.covered = True
+            if getattr(s, "is_match", False):
+                if rest or cont is not None:
+                    fail("%s: only a `match` that ends the body is read as a value" % w)
+                arms = []
+                for pat, body in s.branches:
+                    arms.append((self.pattern(pat, w), self.value(body, None, loop_state)))
+                return ("match", parse_expr(s.scrutinee, w), tuple(arms))
+            has_else = s.branches[-1][0] is None
+            if has_else and not rest and cont is None:
+                e = self.value(s.branches[-1][1], None, loop_state)
+                for cond, body in reversed(s.branches[:-1]):
+                    e = ("if", parse_expr(cond, w), self.value(body, None, loop_state), e)
+                return e
+            if not has_else and len(s.branches) == 1 and self.diverges(s.branches[0][1]):
+                return ("if", parse_expr(s.branches[0][0], w), self.value(s.branches[0][1], None, loop_state),
+                        self.value(rest, cont, loop_state))
+            if any(self.diverges(b) for _, b in s.branches):
+                fail("%s: `return` / `continue` in a branch of an if / else chain with effects" % w)
+            state = self.mutated([s])
+            if not state:
+                fail("%s: `if` without an effect on a variable of the enclosing scope" % w)
+            st = self.state_expr(state)
+            e = st if not has_else else self.value(s.branches[-1][1], st, loop_state)
+            for cond, body in reversed(s.branches if not has_else else s.branches[:-1]):
+                e = ("if", parse_expr(cond, w), self.value(body, st, loop_state), e)
+            return self.bind(state, e, self.value(rest, cont, loop_state))
+        fail("%s: statement outside the translated fragment" % w)
+
+    def pattern(self, pat, w):
+        t = norm(pat)
+        m = re.fullmatch(r"Some \( (\w+) \)", t)
+        if m:
+            return ("Some", m.group(1))
+        if t == "None":
+            return ("None",)
+        if t == "_":
+            return ("_",)
+        fail("%s: the pattern `%s` is outside the translated fragment" % (w, t))
+
+    # -- asserts
+    def asserts(self, stmts):
+        out = []
+        for s in stmts:
+            w = self.W(s)
+            if s.kind == "macro" and s.name in ASSERT_MACROS:
+                s.covered = True
+                if s.name.endswith("_eq"):
+                    k = find_at_depth0(s.args, 0, {","}, w)
+                    k2 = find_at_depth0(s.args, k + 1, {","}, w)
+                    if k >= len(s.args):
+                        fail("%s: assert_eq! with one argument" % w)
+                    out.append(("bin", "==", parse_expr(s.args[:k], w), parse_expr(s.args[k + 1:k2], w)))
+                else:
+                    k = find_at_depth0(s.args, 0, {","}, w)
+                    out.append(parse_expr(s.args[:k], w))
+            elif s.kind == "for" and self.has_asserts(s.body):
+                if not self.only_asserts(s.body):
+                    fail("%s: loop with both assertions and effects" % w)
+                var, it = self.for_parts(s)
+                s.covered = True
+                inner = self.asserts(s.body)
+                out.append(("quant", "forallb", var, it, inner[0] if len(inner) == 1 else ("conj", tuple(inner))))
+            elif self.has_asserts([s]):
+                fail("%s: assertion under a condition" % w)
+        return out
+
+    # -- written
+    def written(self, stmts):
+        if not stmts:
+            fail("%s: fmt without a final write!" % self.fn.where)
+        s, rest = stmts[0], stmts[1:]
+        w = self.W(s)
+        if s.kind == "let":
+            if s.name is None or s.rhs is None:
+                fail("%s: `let` outside the translated fragment" % w)
+            s.covered = True
+            return ("let", s.name, s.ann, parse_expr(s.rhs, w), self.written(rest))
+        if s.kind == "if" and not getattr(s, "is_match", False) and len(s.branches) == 1:
+            b = s.branches[0][1]
+            if len(b) == 3 and b[0].kind == "macro" and b[0].name == "write" and b[1].kind == "expr" \
+                    and norm(b[1].expr) == "?" and b[2].kind == "return" and norm(b[2].rhs) == "Ok ( ( ) )":
+                a = b[0].args
+                if len(a) == 3 and a[0].kind == "id" and a[1].text == "," and a[2].kind == "str":
+                    bs = rust_string_bytes(a[2].text, w)
+                    if 123 in bs or 125 in bs:
+                        fail("%s: format string with placeholders" % w)
+                    for x in [s] + b:
+                        x.covered = True
+                    return ("if", parse_expr(s.branches[0][0], w), ("bytes", bs), self.written(rest))
+            fail("%s: only `if c { write!(f, \"literal\")?; return Ok(()); }` is read" % w)
+        if s.kind == "macro" and s.name == "write" and not rest:
+            a = s.args
+            if len(a) >= 5 and a[0].kind == "id" and a[1].text == "," and a[2].kind == "str" and a[2].text == '"{}"' \
+                    and a[3].text == ",":
+                s.covered = True
+                return ("tostr", parse_expr(a[4:], w))
+            fail("%s: only a final `write!(f, \"{}\", e)` is read" % w)
+        fail("%s: statement outside the fragment read as written text" % w)
+
+
+# ----------------------------------------------------------------------------------------------
+# part 4: translation
+
+class Translator4(Translator3):
+    def __init__(self, where, env, abstractions, source, hints=None):
+        Translator3.__init__(self, where, env, abstractions, source, hints)
+        self.shared = {"unreachable": None}
+
+    @staticmethod
+    def paren(text):
+        # a list literal needs no parentheses
+        if text.startswith("[") and text.endswith("]") and text.count("[") == 1:
+            return text
+        return Translator.paren(text)
+
+    def sub(self):
+        s = Translator3.sub(self)
+        s.shared = self.shared
+        return s
+
+    def coerce(self, e, want):
+        text, ty = self.tr(e, want)
+        if ty == want or (ty == "lit" and is_int(want)) or compat4(ty, want):
+            return text
+        if ty == "nat" and want in INT_WIDTH:
+            if want != "usize":
+                self.err("`%s` is a usize (nat) where %s is expected" % (text, want))
+            return "N.of_nat " + self.paren(text)
+        if ty == "usize" and want == "nat":
+            return "N.to_nat " + self.paren(text)
+        self.err("type mismatch: `%s` has type %s where %s is expected" % (text, ty, want))
+
+    def bind_closure(self, c, ptypes, want=None):
+        """closure -> (fun text, type of the body)"""
+        if c[0] != "closure":
+            self.err("a closure is expected as the argument")
+        if c[2][0] == "block":
+            self.err("closure with a statement block")
+        if len(c[1]) != len(ptypes):
+            self.err("closure with %d parameters where %d are expected" % (len(c[1]), len(ptypes)))
+        sub = self.sub()
+        binders = []
+        for p, t, ann in zip(c[1], ptypes, c[3]):
+            if ann:
+                t = rust_type(ann)
+            if t in ("&usize", "&u32", "&u64", "&bool"):
+                t = t[1:]
+            if p.startswith("("):
+                names = p[1:-1].split(",")
+                tys = strip_refs(t)[6:].split("|") if strip_refs(t).startswith("tuple:") else []
+                if len(names) != len(tys):
+                    self.err("the pattern %s binds a value of type %s" % (p, t))
+                for n, ty1 in zip(names, tys):
+                    sub.env[n] = ty1
+                binders.append("'(%s)" % ", ".join(cid(n) for n in names))
+                continue
+            if p != "_":
+                sub.env[p] = t
+            known = t != "lit" and "?" not in t
+            binders.append(("(%s : %s)" % (cid(p), coq_type4(t, self.where))) if known else cid(p))
+        body, ty = sub.tr(c[2], want)
+        self.absorb(sub)
+        return "fun %s => %s" % (" ".join(binders), body), ty
+
+    def tr(self, e, want=None):
+        k = e[0]
+        P = self.paren
+        if k == "vecmac":
+            if not e[1]:
+                return "[]", "vec:?"
+            el_want = elem_of(want) if want and is_vec(want) and elem_of(want) != "?" else None
+            t0 = strip_refs(self.ty_of(e[1][0], el_want))
+            if t0 == "lit":
+                t0 = el_want or "usize"
+            return "[" + "; ".join(self.coerce(x, t0) for x in e[1]) + "]", "vec:" + t0
+        if k == "bytes":
+            return bytes_text(e[1]), "str"
+        if k == "str":
+            return bytes_text(rust_string_bytes(e[1], self.where)), "str"
+        if k == "tostr":
+            text, ty = self.tr(e[1])
+            if strip_refs(ty) != "str":
+                self.err("`{}` of `%s` : %s (only strings are written)" % (text, ty))
+            return text, "str"
+        if k == "macro":
+            if e[1] not in ("panic", "unreachable"):
+                self.err("macro `%s!` in an expression" % e[1])
+            ty = want or "bool"
+            if self.shared["unreachable"] not in (None, ty):
+                self.err("two dead arms of different types")
+            if self.recording:
+                self.shared["unreachable"] = ty
+            return "unreachable", ty
+        if k == "range":
+            if e[1] is None or e[2] is None or e[3]:
+                self.err("only half-open ranges `lo..hi` are in the vocabulary")
+            ta, tb = self.ty_of(e[1]), self.ty_of(e[2])
+            ty = self.unify(ta, tb) if is_int(ta) and is_int(tb) else None
+            if ty is None or ty == "nat":
+                self.err("range with bounds of types %s and %s" % (ta, tb))
+            if ty == "lit":
+                ty = "usize"
+            return "range4 %s %s" % (P(self.coerce(e[1], ty)), P(self.coerce(e[2], ty))), "vec:" + ty
+        if k == "tupleexpr":
+            parts = [self.tr(x) for x in e[1]]
+            if any(t == "lit" for _, t in parts):
+                self.err("tuple with an untyped literal")
+            return "(" + ", ".join(t for t, _ in parts) + ")", "tuple:" + "|".join(strip_refs(ty) for _, ty in parts)
+        if k == "tuplev":
+            parts = [self.tr(("path", n)) for n in e[1]]
+            return "(" + ", ".join(t for t, _ in parts) + ")", "tuple:" + "|".join(ty for _, ty in parts)
+        if k == "conj":
+            return "(" + " && ".join(P(self.coerce(x, "bool")) for x in e[1]) + ")", "bool"
+        if k == "setfield":
+            vtext, vty = self.tr(e[1])
+            st = STRUCT_OF_TY.get(base_ty(vty))
+            if st is None:
+                self.err("field `%s` of `%s` : %s" % (e[2], vtext, vty))
+            fields = struct_fields(st, self.where)
+            proj = dict(STRUCT_VOCAB[st]["proj"])
+            if e[2] not in dict(fields):
+                self.err("`%s` has no field `%s`" % (st, e[2]))
+            args = [P(self.coerce(e[3], t)) if f == e[2] else "(%s %s)" % (proj[f], P(vtext)) for f, t in fields]
+            return "%s %s" % (STRUCT_VOCAB[st]["ctor"], " ".join(args)), base_ty(vty)
+        if k == "mutcall":
+            return self.tr_mutcall(e)
+        if k == "let":
+            # as part 2, with the state types of part 4 (unknown element types are refined by the re-bindings)
+            name, ann, rhs, body = e[1], e[2], e[3], e[4]
+            ty = self.let_type(name, ann, rhs, body)
+            text = self.tr(rhs)[0] if ty == "lit" else self.coerce(rhs, ty)
+            sub = self.sub()
+            sub.env[name] = ty
+            btext, bty = sub.tr(body, want)
+            self.absorb(sub)
+            known = ann and ty != "lit" and "?" not in ty
+            return "let %s%s := %s in\n  %s" % (cid(name), (" : " + coq_type4(ty, self.where)) if known else "", text, btext), bty
+        if k == "lettuple":
+            text, ty = self.tr(e[2])
+            tys = ty[6:].split("|") if ty.startswith("tuple:") else []
+            if len(tys) != len(e[1]):
+                self.err("`%s` : %s is bound to %d names" % (text, ty, len(e[1])))
+            sub = self.sub()
+            for n, t in zip(e[1], tys):
+                sub.env[n] = t
+            btext, bty = sub.tr(e[3], want)
+            self.absorb(sub)
+            return "let '(%s) := %s in\n  %s" % (", ".join(cid(n) for n in e[1]), text, btext), bty
+        if k == "fold":
+            return self.tr_fold(e)
+        if k == "quant":
+            it, ity = self.tr(e[3])
+            if not is_vec(ity):
+                self.err("iteration over `%s` : %s" % (it, ity))
+            f, ty = self.bind_closure(("closure", (e[2],), e[4], ("",)), [iter_elem(ity)], "bool")
+            if ty != "bool":
+                self.err("the body of the quantified loop has type %s" % ty)
+            return "%s (%s) %s" % (e[1], f, P(it)), "bool"
+        if k == "match":
+            stext, sty = self.tr(e[1])
+            if not sty.startswith("opt:"):
+                self.err("`match` on `%s` : %s (only Option values are matched)" % (stext, sty))
+            arms = []
+            ty = want
+            order = sorted(range(len(e[2])), key=lambda i: e[2][i][1][0] == "macro")
+            texts = {}
+            for i in order:
+                pat, body = e[2][i]
+                sub = self.sub()
+                if pat[0] == "Some":
+                    sub.env[pat[1]] = sty[4:]
+                t, bty = sub.tr(body, ty)
+                self.absorb(sub)
+                if ty is None or ty == "lit":
+                    ty = bty
+                elif not (compat4(bty, ty) or bty == "lit"):
+                    self.err("the arms of the `match` have types %s and %s" % (ty, bty))
+                texts[i] = t
+            for i, (pat, _) in enumerate(e[2]):
+                p = {"Some": "Some " + cid(pat[1]) if pat[0] == "Some" else "", "None": "None", "_": "_"}[pat[0]]
+                arms.append("| %s => %s" % (p, texts[i]))
+            return "match %s with %s end" % (stext, " ".join(arms)), ty
+        if k == "if":
+            c = self.coerce(e[1], "bool")
+            ta, tb = self.ty_of(e[2], want), self.ty_of(e[3], want)
+            if is_int(ta) and is_int(tb):
+                return Translator3.tr(self, e, want)
+            if not compat4(ta, tb):
+                self.err("the branches of `if` have types %s and %s" % (ta, tb))
+            ty = more_specific(strip_refs(ta), strip_refs(tb))
+            return "if %s then %s else %s" % (c, self.coerce(e[2], ty), self.coerce(e[3], ty)), ty
+        if k == "closure":
+            self.err("closure outside a method call of the vocabulary")
+        return Translator3.tr(self, e, want)
+
+    def let_type(self, name, ann, rhs, body):
+        if not ann:
+            ty = self.ty_of(rhs)
+            if ty != "lit":
+                return ty
+            # `let mut ret = 0;` : the type of the first re-binding `ret op= e`
+            sub = self.sub()
+            sub.env[name] = "lit"
+            sub.recording = False
+            for x in self.rebindings(body, name):
+                for y in subexprs2(x):
+                    if y[0] == "bin" and y[1] not in ("<<", ">>", "&&", "||") and ("path", name) in (y[2], y[3]):
+                        other = y[3] if y[2] == ("path", name) else y[2]
+                        try:
+                            t = sub.ty_of(other)
+                        except GenExprError:
+                            continue
+                        if t != "lit" and is_int(t):
+                            return t
+            return "lit"
+        return Translator3.let_type(self, name, ann, rhs, body)
+
+    def rebindings(self, body, name):
+        """right-hand sides of the re-bindings of `name` in a let chain (entering folds: the loop variable stays unbound,
+        so only operands that do not mention it are typed)"""
+        out = []
+        while body[0] in ("let", "lettuple"):
+            if body[0] == "let":
+                if body[1] == name:
+                    rhs = body[3]
+                    out.append(rhs[4] if rhs[0] == "fold" else rhs)
+                    if rhs[0] == "fold":
+                        out.extend(self.rebindings(rhs[4], name))
+                body = body[4]
+            else:
+                body = body[3]
+        return out
+
+    def tr_fold(self, e):
+        state, var, it, body = e[1], e[2], e[3], e[4]
+        P = self.paren
+        ittext, ity = self.tr(it)
+        if not is_vec(ity):
+            self.err("iteration over `%s` : %s" % (ittext, ity))
+        el = iter_elem(ity)
+        sub = self.sub()
+        stys = []
+        for n in state:
+            if n not in self.env:
+                self.err("the loop modifies `%s`, which is not a variable of the enclosing scope" % n)
+            stys.append(self.env[n])
+        # a state whose type is not known yet (`let mut ret = 0`, `Vec::new()`): take the type of the loop body
+        if len(state) == 1 and (stys[0] == "lit" or "?" in stys[0]):
+            probe = self.sub()
+            probe.env[var] = el
+            probe.recording = False
+            try:
+                bt = probe.tr(body)[1]
+            except GenExprError:
+                bt = stys[0]
+            stys = [more_specific(stys[0], bt)]
+        sub.env[var] = el
+        for n, t in zip(state, stys):
+            sub.env[n] = t
+        btext, bty = sub.tr(body)
+        self.absorb(sub)
+        if len(state) == 1:
+            if not (compat4(bty, stys[0]) or (is_int(bty) and is_int(stys[0]))):
+                self.err("the loop body has type %s, the state `%s` has type %s" % (bty, state[0], stys[0]))
+            ty = more_specific(stys[0], bty)
+            return "fold_left (fun %s %s => %s) %s %s" % (cid(state[0]), cid(var), btext, P(ittext), cid(state[0])), ty
+        ty = "tuple:" + "|".join(stys)
+        if not compat4(bty, ty):
+            self.err("the loop body has type %s, the state has type %s" % (bty, ty))
+        names = ", ".join(cid(n) for n in state)
+        return "fold_left (fun st_ %s => let '(%s) := st_ in %s) %s (%s)" % (cid(var), names, btext, P(ittext), names), ty
+
+    def tr_mutcall(self, e):
+        place, name, args = e[1], e[2], e[3]
+        P = self.paren
+        text, ty = self.tr(place)
+        b = base_ty(ty)
+        if is_vec(b):
+            el = strip_refs(elem_of(b))
+            if name == "push" and len(args) == 1:
+                if el == "?":
+                    at = strip_refs(self.ty_of(args[0]))
+                    el = "usize" if at == "lit" else at
+                return "%s ++ [%s]" % (P(text), self.coerce(args[0], el)), "vec:" + el
+            if name == "extend" and len(args) == 1:
+                t2, ty2 = self.tr(args[0])
+                if not compat4(ty2, b):
+                    self.err("extend of `%s` : %s by `%s` : %s" % (text, b, t2, ty2))
+                return "%s ++ %s" % (P(text), P(t2)), more_specific(b, strip_refs(ty2))
+            if name == "retain" and len(args) == 1:
+                f, fty = self.bind_closure(args[0], ["&" + el], "bool")
+                if fty != "bool":
+                    self.err("retain with a closure of type %s" % fty)
+                return "filter (%s) %s" % (f, P(text)), b
+            if name in ("sort", "dedup") and not args:
+                if el not in SORT4:
+                    self.err("`%s` on a vector of %s (only the derived order / equality of Cube is vocabulary)" % (name, el))
+                return "%s %s" % (SORT4[el][0 if name == "sort" else 1], P(text)), b
+        if b == "lut":
+            if name == "set_bit" and len(args) == 1:
+                return "lut4_set_bit %s %s" % (P(text), P(self.coerce(args[0], "usize"))), "lut"
+            if name == "set_value" and len(args) == 2:
+                return "lut4_set_value %s %s %s" % (P(text), P(self.coerce(args[0], "usize")), P(self.coerce(args[1], "bool"))), "lut"
+        if b in STRUCT_OF_TY:
+            st = STRUCT_OF_TY[b]
+            key = (STRUCT_VOCAB[st]["file"], "impl " + st, name)
+            reg = REGISTRY.get(key)
+            if reg is not None and not reg.get("mutates"):
+                self.err("method `%s` does not take `&mut self`" % name)
+            t, rty = self.call_generated(key, [place] + list(args), "method `%s`" % name)
+            return t, rty
+        self.err("`%s` on `%s` : %s is not a modification of the vocabulary" % (name, text, ty))
+
+    def tr_un(self, e, want):
+        op, x = e[1], e[2]
+        if op == "&":
+            text, ty = self.tr(x, want)
+            return text, ("&" + ty) if (ty in STRUCT_OF_TY or ty.startswith("vec:") or ty == "lut") else ty
+        if op == "*":
+            text, ty = self.tr(x, want)
+            return text, ty[1:] if ty.startswith("&") else ty
+        if op == "!":
+            ty = self.ty_of(x)
+            if base_ty(ty) in STRUCT_OF_TY:
+                st = STRUCT_OF_TY[base_ty(ty)]
+                header = "impl Not for %s%s" % ("&" if ty.startswith("&") else "", st)
+                return self.call_generated((STRUCT_VOCAB[st]["file"], header, "not"), [x], "`!`")
+        return Translator3.tr_un(self, e, want)
+
+    def call_generated(self, key, args, what):
+        reg = REGISTRY.get(key)
+        if reg is not None and reg.get("unreachable"):
+            self.err("%s resolves to %s, which has a dead-arm parameter" % (what, reg["name"]))
+        return Translator3.call_generated(self, key, args, what)
+
+    def tr_call(self, e, want):
+        f, args = e[1], e[2]
+        if f[0] == "path":
+            name = f[1]
+            if name == "Vec::new" and not args:
+                return "[]", "vec:?"
+            if name == "Lut::zero" and len(args) == 1:
+                return "lut_new %s" % self.paren(self.coerce(args[0], "nat")), "lut"
+            if name.endswith("::from") and len(args) == 1:
+                target = name[:-len("::from")]
+                ty = self.ty_of(args[0])
+                b = base_ty(ty)
+                rust = "Lut" if b == "lut" else STRUCT_OF_TY.get(b)
+                if rust is None or (target != "Lut" and target not in STRUCT_VOCAB):
+                    self.err("`%s` of `%s`" % (name, ty))
+                header = "impl From<%s%s> for %s" % ("&" if ty.startswith("&") else "", rust, target)
+                file = STRUCT_VOCAB[target]["file"] if target in STRUCT_VOCAB else self.source.rel
+                return self.call_generated((file, header, "from"), list(args), "`%s`" % name)
+        return Translator3.tr_call(self, e, want)
+
+    def tr_mcall(self, e, want):
+        recv, name, args = e[1], e[2], e[3]
+        P = self.paren
+        text, ty = self.tr(recv, None)
+        b = base_ty(ty)
+        if is_vec(b):
+            el = elem_of(b)
+            sel = strip_refs(el)
+            # iterating a borrowed vector of structs yields references
+            rel = el if (el.startswith("&") or sel not in STRUCT_OF_TY or not ty.startswith("&")) else "&" + el
+            if name == "iter" and not args:
+                return text, "vec:" + (el if el.startswith("&") or sel not in STRUCT_OF_TY else "&" + el)
+            if name in ("clone", "collect", "into_iter", "to_vec") and not args:
+                return text, b
+            if name == "len" and not args:
+                return "length %s" % P(text), "nat"
+            if name == "is_empty" and not args:
+                return "vec_is_empty %s" % P(text), "bool"
+            if name == "first" and not args:
+                return "hd_error %s" % P(text), "opt:" + (el if el.startswith("&") or sel not in STRUCT_OF_TY else "&" + el)
+            if name in ("all", "any") and len(args) == 1:
+                f, fty = self.bind_closure(args[0], [rel], "bool")
+                if fty != "bool":
+                    self.err("`%s` with a closure of type %s" % (name, fty))
+                return "%s (%s) %s" % ("forallb" if name == "all" else "existsb", f, P(text)), "bool"
+            if name == "filter" and len(args) == 1:
+                f, fty = self.bind_closure(args[0], [el if el.startswith("&") else "&" + el], "bool")
+                if fty != "bool":
+                    self.err("filter with a closure of type %s" % fty)
+                return "filter (%s) %s" % (f, P(text)), b
+            if name == "map" and len(args) == 1:
+                f, fty = self.bind_closure(args[0], [rel])
+                if fty == "lit":
+                    fty = "usize"
+                return "map (%s) %s" % (f, P(text)), "vec:" + fty
+            if name == "flat_map" and len(args) == 1:
+                f, fty = self.bind_closure(args[0], [rel])
+                if not is_vec(fty):
+                    self.err("flat_map with a closure of type %s" % fty)
+                return "flat_map (%s) %s" % (f, P(text)), strip_refs(fty)
+            if name == "join" and len(args) == 1 and sel == "str":
+                return "join %s %s" % (P(self.coerce(args[0], "str")), P(text)), "str"
+            self.err("method `%s` on the list `%s` : %s is outside the vocabulary" % (name, text, ty))
+        if b == "lut":
+            if name == "num_vars" and not args:
+                return "nv %s" % P(text), "nat"
+            if name == "num_bits" and not args:
+                return "num_bits %s" % P(text), "usize"
+            if name in ("value", "get_bit") and len(args) == 1:
+                return "lut4_value %s %s" % (P(text), P(self.coerce(args[0], "usize"))), "bool"
+            if name == "clone" and not args:
+                return text, "lut"
+            self.err("method `%s` of Lut is outside the vocabulary" % name)
+        if name == "clone" and not args and (b in STRUCT_OF_TY or b in INT_WIDTH or b == "bool"):
+            return text, b
+        if name == "to_string" and not args:
+            if b == "str":
+                return text, "str"
+            if b in DISPLAY4:
+                return "%s %s" % (DISPLAY4[b], P(text)), "str"
+            self.err("to_string of `%s` : %s" % (text, ty))
+        return Translator3.tr_mcall(self, e, want)
+
+
+# ----------------------------------------------------------------------------------------------
+# part 4: what to translate
+
+def S4(name, file, impl, fn, target="value"):
+    return {"name": name, "file": file, "impl": impl, "fn": fn, "target": target}
+
+
+def _ops4(prefix, file, trait, method, ty):
+    out = []
+    for s, sn in ((ty, "val"), ("&" + ty, "ref")):
+        for r, rn in ((ty, "val"), ("&" + ty, "ref")):
+            out.append(S4("%s_%s_%s" % (prefix, sn, rn), file, "impl %s<%s> for %s" % (trait, r, s), method))
+    return out
+
+
+def _common4(p, file, st):
+    """the functions the three forms share, in dependency order"""
+    imp = "impl " + st
+    return [
+        S4("gx_%s_num_vars" % p, file, imp, "num_vars"),
+        S4("gx_%s_zero" % p, file, imp, "zero"),
+        S4("gx_%s_one" % p, file, imp, "one"),
+        S4("gx_%s_num_cubes" % p, file, imp, "num_cubes"),
+        S4("gx_%s_num_lits" % p, file, imp, "num_lits"),
+        S4("gx_%s_is_zero" % p, file, imp, "is_zero"),
+        S4("gx_%s_is_one" % p, file, imp, "is_one"),
+        S4("gx_%s_nth_var" % p, file, imp, "nth_var"),
+        S4("gx_%s_nth_var_inv" % p, file, imp, "nth_var_inv"),
+        S4("gx_%s_from_cubes_asserts" % p, file, imp, "from_cubes", "asserts"),
+        S4("gx_%s_from_cubes" % p, file, imp, "from_cubes"),
+        S4("gx_%s_cubes" % p, file, imp, "cubes"),
+        S4("gx_%s_value" % p, file, imp, "value"),
+    ]
+
+
+def _to_lut4(p, file, st):
+    return [
+        S4("gx_%s_display" % p, file, "impl fmt::Display for " + st, "fmt", "written"),
+        S4("gx_lut_from_%s_ref" % p, file, "impl From<&%s> for Lut" % st, "from"),
+        S4("gx_lut_from_%s_val" % p, file, "impl From<%s> for Lut" % st, "from"),
+    ]
+
+
+SPECS4 = [
+    # ---- sop/cube.rs, sop/ecube.rs: what part 2 lists as not translated and part 4 can read
+    S4("gx_cube_pos_vars", CUBE, IC, "pos_vars"),
+    S4("gx_cube_neg_vars", CUBE, IC, "neg_vars"),
+    S4("gx_cube_implies_lut", CUBE, IC, "implies_lut"),
+    S4("gx_cube_all", CUBE, IC, "all"),
+    S4("gx_ecube_vars", ECUBE, IE, "vars"),
+    S4("gx_ecube_implies_lut", ECUBE, IE, "implies_lut"),
+    S4("gx_ecube_all", ECUBE, IE, "all"),
+    # ---- sop/sop.rs
+] + _common4("sop", SOP, "Sop") + [
+    S4("gx_sop_simplify", SOP, "impl Sop", "simplify"),
+    S4("gx_sop_or_asserts", SOP, "impl Sop", "or", "asserts"),
+    S4("gx_sop_or", SOP, "impl Sop", "or"),
+    S4("gx_sop_and_asserts", SOP, "impl Sop", "and", "asserts"),
+    S4("gx_sop_and", SOP, "impl Sop", "and"),
+] + _ops4("gx_sop_bitand", SOP, "BitAnd", "bitand", "Sop") + _ops4("gx_sop_bitor", SOP, "BitOr", "bitor", "Sop") + [
+    S4("gx_sop_not_ref", SOP, "impl Not for &Sop", "not"),
+    S4("gx_sop_not_val", SOP, "impl Not for Sop", "not"),
+    S4("gx_sop_from_lut_ref", SOP, "impl From<&Lut> for Sop", "from"),
+    S4("gx_sop_from_lut_val", SOP, "impl From<Lut> for Sop", "from"),
+] + _to_lut4("sop", SOP, "Sop") + [
+    # ---- sop/esop.rs
+] + _common4("esop", ESOP, "Esop") + [
+    S4("gx_esop_xor_asserts", ESOP, "impl Esop", "xor", "asserts"),
+    S4("gx_esop_xor", ESOP, "impl Esop", "xor"),
+    S4("gx_esop_not_ref", ESOP, "impl Not for &Esop", "not"),
+    S4("gx_esop_not_val", ESOP, "impl Not for Esop", "not"),
+] + _ops4("gx_esop_bitxor", ESOP, "BitXor", "bitxor", "Esop") + [
+    S4("gx_esop_from_lut_ref", ESOP, "impl From<&Lut> for Esop", "from"),
+    S4("gx_esop_from_lut_val", ESOP, "impl From<Lut> for Esop", "from"),
+] + _to_lut4("esop", ESOP, "Esop") + [
+    # ---- sop/soes.rs
+] + _common4("soes", SOES, "Soes") + [
+    S4("gx_soes_or_asserts", SOES, "impl Soes", "or", "asserts"),
+    S4("gx_soes_or", SOES, "impl Soes", "or"),
+] + _ops4("gx_soes_bitor", SOES, "BitOr", "bitor", "Soes") + _to_lut4("soes", SOES, "Soes")
+
+# functions of sop.rs / esop.rs / soes.rs that are not translated: (file, fn label) -> reason
+SKIPPED_FNS4 = {}
+# functions of cube.rs / ecube.rs that neither part 2 nor part 4 translates (they stay listed in the trailer of Exprs2.v)
+STILL_SKIPPED_CUBE4 = {
+    (CUBE, "impl fmt::Display for Cube :: fn fmt"): "`while` loop shifting the masks and write! with placeholders (Model cube_display, "
+                                                    "property C16)",
+    (ECUBE, "impl fmt::Display for Ecube :: fn fmt"): "`while` loop shifting the mask and format! with placeholders (Model "
+                                                      "ecube_display, property C16)",
+}
+# functions of which part 2 translates one statement and part 4 the whole body
+BOTH_PARTS4 = {
+    (CUBE, IC + " :: fn all"): "Exprs2.v has the bound `let mx: u32 = 1 << vars` and its shift check (gx_cube_all_mx, gx_cube_all_mx_shift_ok)",
+    (ECUBE, IE + " :: fn all"): "Exprs2.v has the bound `let mx: u32 = 1 << vars` and its shift check (gx_ecube_all_mx, gx_ecube_all_mx_shift_ok)",
+}
+NOT_TIED4 = [
+    "the Lut methods used by the conversions and by implies_lut are vocabulary, not read from src/lut.rs: num_vars() -> nv, "
+    "num_bits() -> Api.num_bits, value(m) / get_bit(m) -> tget (tbl l) m, set_bit(m) -> tset (tbl l) m true, "
+    "set_value(m, b) -> tset (tbl l) m b, Lut::zero(n) -> lut_new n, clone() -> identity; their range checks (check_bit) are "
+    "not emitted (every mask of the loops is below num_bits)",
+    "Vec::sort() / Vec::dedup() on Vec<Cube> are vocabulary: cube_sort (insertion sort on the derived order cube_cmp) and "
+    "cube_dedup of Model/TwoLevel.v; the derived PartialOrd / PartialEq of Cube are tied by the field order check of part 2",
+    "to_string() of a Cube / Ecube is cube_display / ecube_display of the model (their Display impls contain `while` loops "
+    "and are not translated); `.join(sep)` is Model join; `.collect::<Vec<_>>()` is the identity on lists",
+    "assert! / assert_eq! lines are generated as booleans (the *_asserts definitions); that a failing one panics - "
+    "`always b ;; ..` in the model - is the reading of the macro, and Gen/Guards.v records the lines themselves",
+    "the dev-profile overflow checks of `ret += c.num_lits()` (usize addition; plain N addition on both sides) and the "
+    "shift checks inside Cube::nth_var(l) / Cube::nth_var_inv(l) called by `!&Sop` (l comes from pos_vars() / neg_vars(), "
+    "hence l < 32; ExprsTie4 uses the unchecked values gx_cube_nth_var l, the checks are gx_cube_nth_var_shift_ok of Exprs2.v)",
+    "Sop::nth_var / nth_var_inv, num_vars(), cubes() of the three forms have no counterpart in Model/TwoLevel.v (the model "
+    "uses the record fields and the cube constructors directly); ExprsTie4 states them against those",
+    "the callee's assertions are not re-emitted at a call site: `ret & s` in `!&Sop` is gx_sop_and without "
+    "gx_sop_and_asserts; ExprsTie4.tie_sop_not proves that the model's check never fires there",
+    "Cube::all / Ecube::all: the dev-profile check of `1 << vars` is not emitted here (it is gx_cube_all_mx_shift_ok / "
+    "gx_ecube_all_mx_shift_ok of Exprs2.v; ExprsTie4 states the ties under that check)",
+    "the Display impls of Cube / Ecube (see the list above)",
+]
+
+
+def fn_params4(fn):
+    out = []
+    for n, t in fn.info["params"]:
+        if t == "usize" and n in NAT_PARAMS4:
+            t = "nat"
+        out.append((n, t))
+    return out
+
+
+def all_stmts(block):
+    for s in block:
+        yield s
+        if s.kind == "for":
+            yield from all_stmts(s.body)
+        elif s.kind == "if":
+            for _, b in s.branches:
+                yield from all_stmts(b)
+
+
+def build_definition4(fn, spec, mut_methods):
+    target = spec["target"]
+    conv = Conv4(fn, mut_methods)
+    params = fn_params4(fn)
+    ret = fn.info["ret"]
+    mutates = False
+    if target == "value":
+        if fn.info.get("mut_self"):
+            if ret != "unit":
+                fail("%s: a `&mut self` method that returns a value is outside the translated fragment" % fn.where)
+            mutates = True
+            ret = base_ty(dict(params)["self"])
+            expr = conv.value(fn.body, ("path", "self"))
+        else:
+            expr = conv.value(fn.body, None)
+    elif target == "asserts":
+        parts = conv.asserts(fn.body)
+        if not parts:
+            fail("%s: no assertion left in the body (the definition %s is listed for them)" % (fn.where, spec["name"]))
+        expr = parts[0] if len(parts) == 1 else ("conj", tuple(parts))
+        ret = "bool"
+    elif target == "written":
+        params = [(n, t) for n, t in params if not t.startswith("opaque:")]
+        expr = conv.written(fn.body)
+        ret = "str"
+    else:
+        fail("internal: unknown target kind %s" % target)
+    for n, t in params:
+        if t.startswith("opaque") or t == "unit":
+            fail("%s: parameter %s has the type %s, which is outside the vocabulary" % (fn.where, n, t))
+    if ret.startswith("opaque") or ret == "unit":
+        fail("%s: return type %s is outside the vocabulary" % (fn.where, ret))
+    tr = Translator4(fn.where, dict(params), [], fn.source, {})
+    body, ty = tr.tr(expr, ret)
+    if not (ty == ret or (ty == "lit" and is_int(ret)) or compat4(ty, ret) or (ty == "nat" and ret == "usize")):
+        fail("%s: the body has type %s, the declared return type is %s" % (fn.where, ty, ret))
+    if ty == "nat" and ret == "usize":
+        ret = "nat"    # x.len(): a length stays a nat (as in the model)
+    ret = strip_refs(ret)
+    unreachable = tr.shared["unreachable"]
+    if unreachable:
+        params = params + [("unreachable", unreachable)]
+    binders = " ".join("(%s : %s)" % (cid(p), coq_type4(t, fn.where)) for p, t in params)
+    text = "Definition %s%s : %s :=\n  %s." % (spec["name"], (" " + binders) if binders else "", coq_type4(ret, fn.where), body)
+    if target == "value":
+        REGISTRY[(fn.file, fn.impl, fn.name)] = {"name": spec["name"], "params": [t for n, t in params if n != "unreachable"],
+                                                 "ret": ret, "mutates": mutates, "unreachable": bool(unreachable)}
+    return {"name": spec["name"], "text": text, "file": fn.file, "impl": fn.impl, "fn": fn.name, "target": target,
+            "calls": list(dict.fromkeys(tr.calls)), "src": " ".join(fn.src.split()), "unreachable": unreachable,
+            "params": params, "type": ret}
+
+
+def generate4():
+    if not REGISTRY or not any(k[0] == CUBE for k in REGISTRY):
+        generate2()
+    saved_registry = dict(REGISTRY)
+    saved_sources = {rel: SOURCES2.get(rel) for rel in FILES4}
+    defs = []
+    fn_cache = {}
+    ALLOW_MATCH[0] = True
+    RUST_TYPE_EXTRA[0] = rust_type4
+    STRUCT_VOCAB.update(STRUCT_VOCAB4)
+    STRUCT_OF_TY.update({v["ty"]: k for k, v in STRUCT_VOCAB4.items()})
+    STRUCT_NAMES.update(STRUCT_VOCAB4)
+    try:
+        sources = {}
+        for rel in FILES4:
+            sources[rel] = Source2(rel)     # re-read with the types of part 4
+        SOURCES2.update(sources)
+        mut_methods = set(VEC_MUT_METHODS) | set(LUT_MUT_METHODS)
+        for rel in FILES4:
+            for key in sources[rel].order:
+                if sources[rel].fns[key].get("mut_self"):
+                    mut_methods.add(key[1])
+        for spec in SPECS4:
+            src = sources[spec["file"]]
+            key = (spec["impl"], spec["fn"])
+            if key not in src.fns:
+                fail("%s: %s not found" % (spec["file"], fn_label(*key)))
+            ck = (spec["file"],) + key
+            if ck not in fn_cache:
+                fn_cache[ck] = Fn2(src, key)
+            defs.append(build_definition4(fn_cache[ck], spec, mut_methods))
+        # coverage: every statement of a translated function is consumed; assertions need their own definition
+        for ck, fn in fn_cache.items():
+            for s in all_stmts(fn.body):
+                if getattr(s, "skipped_assert", False) and not s.covered:
+                    fail("%s: `%s`: the assertion is skipped by the value and no `asserts` definition is listed for the "
+                         "function" % (fn.where, stmt_text(fn, s)))
+                if not s.covered:
+                    fail("%s: `%s`: statement is not accounted for by any generated definition" % (fn.where, stmt_text(fn, s)))
+        # every fn of the three files is translated or listed; the leftovers of cube.rs / ecube.rs are exactly the listed ones
+        for rel in FILES4_FULL:
+            for key in sources[rel].order:
+                lab = (rel, fn_label(*key))
+                listed = lab in SKIPPED_FNS4
+                translated = (rel,) + key in fn_cache
+                if listed == translated:
+                    fail("%s: %s is %s" % (rel, lab[1], "both translated and listed as skipped" if listed else
+                                           "neither translated nor listed in SKIPPED_FNS4"))
+        for lab in SKIPPED_FNS4:
+            if not any(lab == (rel, fn_label(*key)) for rel in FILES4_FULL for key in sources[rel].order):
+                fail("the skip list of part 4 names %s: %s, which does not exist" % lab)
+        for rel in (CUBE, ECUBE):
+            for key in sources[rel].order:
+                lab = (rel, fn_label(*key))
+                in2 = lab not in SKIPPED_FNS2
+                in4 = (rel,) + key in fn_cache
+                listed = lab in STILL_SKIPPED_CUBE4
+                if in2 and in4 and lab in BOTH_PARTS4:
+                    continue
+                if in2 and (in4 or listed):
+                    fail("%s: %s is translated (at least in part) by part 2 and named by part 4" % lab)
+                if not in2 and in4 == listed:
+                    fail("%s: %s is %s" % (rel, lab[1], "both translated by part 4 and listed as skipped" if listed else
+                                           "translated by no part and not listed in STILL_SKIPPED_CUBE4"))
+        for lab in STILL_SKIPPED_CUBE4:
+            if lab not in SKIPPED_FNS2:
+                fail("the skip list of part 4 names %s: %s, which part 2 does not list" % lab)
+        for lab in BOTH_PARTS4:
+            if (lab[0],) + tuple(lab[1].split(" :: fn ")) not in fn_cache or lab in SKIPPED_FNS2:
+                fail("BOTH_PARTS4 names %s: %s, which parts 2 and 4 do not both translate" % lab)
+    finally:
+        ALLOW_MATCH[0] = False
+        RUST_TYPE_EXTRA[0] = None
+        for k in STRUCT_VOCAB4:
+            STRUCT_VOCAB.pop(k, None)
+            STRUCT_NAMES.discard(k)
+        for v in STRUCT_VOCAB4.values():
+            STRUCT_OF_TY.pop(v["ty"], None)
+        for rel in FILES4:
+            if saved_sources[rel] is None:
+                SOURCES2.pop(rel, None)
+            else:
+                SOURCES2[rel] = saved_sources[rel]
+        REGISTRY.clear()
+        REGISTRY.update(saved_registry)
+
+    L = []
+    L.append("(* GENERATED by gen/gen_exprs.py (part 4) from src/sop/sop.rs, src/sop/esop.rs, src/sop/soes.rs and from what")
+    L.append("   Gen/Exprs2.v leaves of src/sop/cube.rs, src/sop/ecube.rs - do not edit.")
+    L.append("   Whole function bodies, translated from the Rust source text on every run by a state-passing reading of the")
+    L.append("   statement blocks: `let` / re-binding for assignments, fold_left for `for` loops over the variables the loop")
+    L.append("   modifies, forallb / existsb for search loops, record rebuilding for field updates, lists for vectors and")
+    L.append("   iterators (push -> ++ [x], extend -> ++, retain / filter -> filter, map -> map, all -> forallb, first ->")
+    L.append("   hd_error), byte lists for the text written by Display::fmt.  `num_vars` is a nat, other usize values are N.")
+    L.append("   Proofs/ExprsTie4.v proves that each definition is (extensionally) the function of Model/TwoLevel.v. *)")
+    L.append("From Coq Require Import List NArith Arith Bool.")
+    L.append("From V Require Import Base.Res Gen.Tables Model.Kernels Model.TwoLevel Model.Api Gen.Exprs2.")
+    L.append("Import ListNotations.")
+    L.append("Open Scope N_scope.")
+    L.append("")
+    L.append("(* vocabulary that is not read from the source *)")
+    L.append("(* v.is_empty() *)")
+    L.append("Definition vec_is_empty {A : Type} (l : list A) : bool := match l with [] => true | _ :: _ => false end.")
+    L.append("(* lo..hi on usize *)")
+    L.append("Definition range4 (lo hi : N) : list N := map N.of_nat (seq (N.to_nat lo) (N.to_nat hi - N.to_nat lo)).")
+    L.append("(* Lut::value / get_bit, set_bit, set_value without their range check (src/lut.rs is not read here) *)")
+    L.append("Definition lut4_value (l : lut) (m : N) : bool := tget (tbl l) m.")
+    L.append("Definition lut4_set_bit (l : lut) (m : N) : lut := mkLut (nv l) (tset (tbl l) m true).")
+    L.append("Definition lut4_set_value (l : lut) (m : N) (b : bool) : lut := mkLut (nv l) (tset (tbl l) m b).")
+    L.append("")
+    for d in defs:
+        loc = "%s: %s" % (d["file"].replace("src/", ""), fn_label(d["impl"], d["fn"]))
+        what = {"value": "whole body", "asserts": "the assertions of the body", "written": "the text written by the body"}[d["target"]]
+        cm = "(* %s, %s\n   `%s`" % (loc, what, coq_comment(d["src"]))
+        if d["unreachable"]:
+            cm += "\n   the arm `panic!()` is the parameter `unreachable`"
+        if d["calls"]:
+            cm += "\n   forwards to " + ", ".join(d["calls"])
+        cm += " *)"
+        L.append(cm)
+        L.append(d["text"])
+        L.append("")
+    L.append("(* functions of sop.rs / esop.rs / soes.rs that are NOT translated:")
+    for (file, lab), why in sorted(SKIPPED_FNS4.items()):
+        L.append("   %s: %s - %s" % (file.replace("src/", ""), lab, coq_comment(why)))
+    if not SKIPPED_FNS4:
+        L.append("   (none)")
+    L.append("   functions of cube.rs / ecube.rs translated as a whole here and in one statement by Gen/Exprs2.v:")
+    for (file, lab), why in sorted(BOTH_PARTS4.items()):
+        L.append("   %s: %s - %s" % (file.replace("src/", ""), lab, coq_comment(why)))
+    L.append("   functions of cube.rs / ecube.rs that neither Gen/Exprs2.v nor this file translates:")
+    for (file, lab), why in sorted(STILL_SKIPPED_CUBE4.items()):
+        L.append("   %s: %s - %s" % (file.replace("src/", ""), lab, coq_comment(why)))
+    L.append("   NOT_TIED4 - what the definitions above and Proofs/ExprsTie4.v do not tie:")
+    for t in NOT_TIED4:
+        L.append("   - " + coq_comment(t))
+    L.append("*)")
+    L.append("")
+    return "\n".join(L), defs
+
+
 def main(verbose=False, out_dir=None):
-    """regenerates coq/Gen/Exprs.v, coq/Gen/Exprs2.v and coq/Gen/Exprs3.v (or <out_dir>/...); returns True when a file
-    content changed"""
+    """regenerates coq/Gen/Exprs.v, coq/Gen/Exprs2.v, coq/Gen/Exprs3.v and coq/Gen/Exprs4.v (or <out_dir>/...); returns
+    True when a file content changed"""
     out = out_dir or os.environ.get("VERIF_EXPRS_OUT") or COQ
     content, defs = generate()
     changed = G.write_if_changed(os.path.join(out, "Exprs.v"), content)
@@ -3310,6 +4597,8 @@ def main(verbose=False, out_dir=None):
     changed2 = G.write_if_changed(os.path.join(out, "Exprs2.v"), content2)
     content3, defs3 = generate3()
     changed3 = G.write_if_changed(os.path.join(out, "Exprs3.v"), content3)
+    content4, defs4 = generate4()
+    changed4 = G.write_if_changed(os.path.join(out, "Exprs4.v"), content4)
     if verbose:
         for d in defs:
             print("%-28s %s: %s%s  `%s`" % (d["name"], d["file"], d["fn"],
@@ -3327,7 +4616,13 @@ def main(verbose=False, out_dir=None):
                                           d["label"] or (("`%s`" % d["stmt"]) if d["stmt"] else "(whole body)")))
         print("Exprs3.v %s (%d definitions, %d shift checks)" % ("rewritten" if changed3 else "unchanged", len(defs3),
                                                                    sum(1 for d in defs3 if d["guard"])))
-    return changed or changed2 or changed3
+        for d in defs4:
+            print("%-28s %s: %s  (%s)" % (d["name"], d["file"], fn_label(d["impl"], d["fn"]),
+                                          {"value": "whole body", "asserts": "assertions", "written": "written text"}[d["target"]]))
+        print("Exprs4.v %s (%d definitions: %s)" % (
+            "rewritten" if changed4 else "unchanged", len(defs4),
+            ", ".join("%d from %s" % (sum(1 for d in defs4 if d["file"] == f), f.replace("src/", "")) for f in FILES4)))
+    return changed or changed2 or changed3 or changed4
 
 
 if __name__ == "__main__":
